@@ -2,6 +2,7 @@ package prefixset
 
 import (
 	"bufio"
+	"errors"
 	"fmt"
 	"io"
 	"net/netip"
@@ -28,7 +29,12 @@ func (psc Config) LoadPrefixSet() (*bart.Lite, error) {
 	}
 	defer close()
 
-	return PrefixSetFromText(data)
+	s, err := PrefixSetFromText(data)
+	if err != nil {
+		// The parse error refers to a line inside the mapping, which is unmapped on return.
+		return nil, errors.New(err.Error())
+	}
+	return s, nil
 }
 
 // PrefixSetFromText parses prefixes from the text and builds a prefix set.
